@@ -45,6 +45,15 @@ def extract(ctx):
     sol_use = re.search(r"vm\.signatures\.length\s*<\s*quorum\(\s*guardianSet\.keys\.length\s*\)", sol)
     if not sol_use:
         ctx.gen_fail("C07", "`vm.signatures.length < quorum(guardianSet.keys.length)` rejection not found in " + SOL)
+    # shape of the two contract-side signature loops (textual facts; the loops themselves are hand-modelled in
+    # Whv/Model/Contract.lean): strictly ascending indices and positional ecrecover comparison
+    facts["_solLoop"] = bool(re.search(r"require\(i == 0 \|\| sig\.guardianIndex > lastIndex,", sol)) and \
+        bool(re.search(r"if\(ecrecover\(hash, sig\.v, sig\.r, sig\.s\) != guardianSet\.keys\[sig\.guardianIndex\]\)\{\s*return \(false,", sol)) and \
+        bool(re.search(r"if\(guardianSet\.keys\.length == 0\)\{\s*return \(false,", sol))
+    facts["_ralLoop"] = bool(re.search(r"assert!\(guardianIndexI256 > lastGuardianIndex,", ral)) and \
+        bool(re.search(r"let mut lastGuardianIndex = -1", ral)) and \
+        bool(re.search(r"assert!\(guardianKey == ethEcRecover!\(hash, newSignature\),", ral)) and \
+        bool(re.search(r"assert!\(guardianSize != 0,", ral))
     return facts
 
 
@@ -52,6 +61,8 @@ def gen(ctx):
     facts = extract(ctx)
     defs = []
     lean_terms = {}
+    sol_loop = facts.pop("_solLoop", False)
+    ral_loop = facts.pop("_ralLoop", False)
     for k, lname in (("go", "goQuorum"), ("sol", "solQuorum"), ("ral", "ralQuorum")):
         if k not in facts:
             continue
@@ -63,10 +74,16 @@ def gen(ctx):
             continue
         lean_terms[k] = t
         defs.append("/-- from %s: `%s` -/\ndef %s (n : Nat) : Nat := %s\n" % (src, expr, lname, t))
-    if len(defs) == 3:
+    nq = len(defs)
+    if nq == 3:
+        b = lambda x: "true" if x else "false"
+        defs.append("/-- Messages.sol verifySignatures/verifyVM: non-empty set, `i == 0 || index > lastIndex`, positional ecrecover comparison (textual) -/\n"
+                    "def solLoopShape : Bool := %s\n" % b(sol_loop))
+        defs.append("/-- governance.ral parseAndVerifyVAA: non-empty set, index > lastGuardianIndex from -1, key == ethEcRecover (textual) -/\n"
+                    "def ralLoopShape : Bool := %s\n" % b(ral_loop))
         ctx.gen("C07", "namespace Whv.Gen.C07\n\n" + "\n".join(defs) + "\nend Whv.Gen.C07\n")
     ctx.cov["gen_facts"] = {k: {"source": v[2], "expr": v[1]} for k, v in facts.items()}
-    return facts, len(defs) == 3
+    return facts, nq == 3
 
 
 def run(ctx):
